@@ -50,8 +50,12 @@ def isolated(a, d, meta, props, patch):
         shutil.rmtree(base, ignore_errors=True)
     out = {"seed": a.sid, "tier": a.tier, "verif_seed": a.seed, "isolated": True, "results": results,
            "detected": any(v["exit"] == 1 for v in results.values())}
+    if a.benign:
+        out["silent"] = all(v["exit"] == 0 for v in results.values())
     with open(os.path.join(d, f"result.{a.tier}.json"), "w") as f:
         json.dump(out, f, indent=1)
+    if a.benign:
+        sys.exit(0 if out["silent"] else 1)
     sys.exit(0 if out["detected"] else 1)
 
 
@@ -62,8 +66,9 @@ def main():
     ap.add_argument("--props")
     ap.add_argument("--seed", default="1")
     ap.add_argument("--isolated", action="store_true", help="use a scratch worktree and harness copy instead of /repo")
+    ap.add_argument("--benign", action="store_true", help="the change is taken from /verif/benign/<id>: no check may raise an alarm")
     a = ap.parse_args()
-    d = os.path.join(VERIF, "seeded", a.sid)
+    d = os.path.join(VERIF, "benign" if a.benign else "seeded", a.sid)
     meta = {}
     if os.path.exists(os.path.join(d, "meta.json")):
         meta = json.load(open(os.path.join(d, "meta.json")))
